@@ -215,12 +215,19 @@ func runC0405(cfg *config, res *monitor.Result) {
 					continue
 				}
 				if key != "" {
+					budgetKey := sigFlav(t) + "/" + key + "/" + shapesKey(c.Msg)
+					if shrinkBudget[budgetKey] >= 1 {
+						res.Violate(shrinkSig[budgetKey], "", nil)
+						continue
+					}
+					shrinkBudget[budgetKey]++
 					min := shrink(c.Msg, key, func(m *dynamicpb.Message) string { k, _ := c04Check(t, m); return k })
 					_, what2 := c04Check(t, min)
 					if what2 != "" {
 						what = what2
 					}
-					sig := fmt.Sprintf("C04:%s:%s:%s", t.pkg.Flavour, key, shapesKey(min))
+					sig := fmt.Sprintf("C04:%s:%s:%s", sigFlav(t), key, shapesKey(min))
+					shrinkSig[budgetKey] = sig
 					res.Violate(sig, fmt.Sprintf("%s (%s): %s", t.md.FullName(), t.pkg.GoPkg, what), witness(t, min, c))
 				}
 			} else {
@@ -233,10 +240,19 @@ func runC0405(cfg *config, res *monitor.Result) {
 					seen := map[string]bool{}
 					for _, it := range items {
 						k := it.String()
+						if it.InWKT && t.pkg.Flavour == "gogo" {
+							continue // decoded/encoded by gogo's own code for its well-known types
+						}
 						if seen[k] {
 							continue
 						}
 						seen[k] = true
+						budgetKey := sigFlav(t) + "/" + k
+						if shrinkBudget[budgetKey] >= 2 {
+							res.Violate(shrinkSig[budgetKey], "", nil)
+							continue
+						}
+						shrinkBudget[budgetKey]++
 						min := shrink(c.Msg, k, func(m *dynamicpb.Message) string {
 							its, _, _ := c05Check(t, m)
 							for _, x := range its {
@@ -246,19 +262,27 @@ func runC0405(cfg *config, res *monitor.Result) {
 							}
 							return ""
 						})
-						sig := fmt.Sprintf("C05:%s:%s", t.pkg.Flavour, k)
+						sig := fmt.Sprintf("C05:%s:%s", sigFlav(t), k)
 						if ms := shapesKey(min); ms != it.Shape && it.Kind != "phantom" {
 							// the differing field alone does not explain it: keep the co-populated shapes in the signature
 							sig += ":with:" + ms
 						}
+						shrinkSig[budgetKey] = sig
 						w := witness(t, min, c)
 						w["diff_path"] = it.Path
 						w["diff_note"] = it.Note
 						res.Violate(sig, fmt.Sprintf("%s (%s): reference parse of Marshal output: field %s %s %s", t.md.FullName(), t.pkg.GoPkg, it.Path, it.Kind, it.Note), w)
 					}
 				default:
+					budgetKey := sigFlav(t) + "/" + fail + "/" + shapesKey(c.Msg)
+					if shrinkBudget[budgetKey] >= 1 {
+						res.Violate(shrinkSig[budgetKey], "", nil)
+						continue
+					}
+					shrinkBudget[budgetKey]++
 					min := shrink(c.Msg, fail, func(m *dynamicpb.Message) string { _, f, _ := c05Check(t, m); return f })
-					sig := fmt.Sprintf("C05:%s:%s:%s", t.pkg.Flavour, fail, shapesKey(min))
+					sig := fmt.Sprintf("C05:%s:%s:%s", sigFlav(t), fail, shapesKey(min))
+					shrinkSig[budgetKey] = sig
 					res.Violate(sig, fmt.Sprintf("%s (%s): %s", t.md.FullName(), t.pkg.GoPkg, what), witness(t, min, c))
 				}
 			}
